@@ -52,7 +52,7 @@ NoActM ==
    tellPending |-> 0]              \* tell handler finished, on_tell_result not seen yet (message id)
 
 NoOpM == [own |-> "", kind |-> "", a |-> "", m |-> 0, d |-> 0, stNow |-> 0,
-          done |-> FALSE, res |-> "", dls |-> <<>>, afterJoin |-> FALSE, mustPanic |-> FALSE, jp |-> FALSE,
+          done |-> FALSE, res |-> "", dls |-> <<>>, afterJoin |-> FALSE, mustPanic |-> FALSE, jp |-> FALSE, pend |-> FALSE,
           acc |-> FALSE]
 
 NoMsgM == [op |-> 0, a |-> "", handled |-> 0, acc |-> FALSE, preStop |-> FALSE, postStop |-> FALSE,
@@ -162,7 +162,8 @@ OnOpPending(mon, ev) ==
             \cup B(op.mustPanic, "C14", "ask closing a cycle was sent instead of panicking")
             \cup B(mon.strict /\ ~ev.tk /\ A.lastAvail > 0, "C09", "send waited although a slot was free")
             \cup B(mon.strict /\ ev.tk /\ A.lastAvail = 0, "C09", "send entered a full mailbox")
-      m1 == IF ev.tk /\ op.kind \in AskKindsM THEN Accept(mon, ev.op) ELSE mon
+      m0 == UpdO(mon, ev.op, [pend |-> TRUE])
+      m1 == IF ev.tk /\ op.kind \in AskKindsM THEN Accept(m0, ev.op) ELSE m0
   IN  AddBad(m1, b)
 
 DlMatches(op, d) ==
@@ -206,6 +207,11 @@ OnOpEnd(mon, ev) ==
            \* C01
            \cup B(isMsg /\ (ev.res = "send" \/ (ev.res = "timeout" /\ op.kind = "tellT")) /\ M.handled > 0,
                   "C01", "message of a failed send was handled")
+           \* C09: a tell / stop that returned Ok from its very first poll found a free slot; if the previous sample
+           \* showed none (and the actor has not ended) it did not wait for one
+           \cup B(mon.strict /\ ~op.pend /\ ev.res = "ok" /\ op.kind \in {"tell", "tellT", "stop"} /\ ~A.joined
+                  /\ A.lastStrong > 0 /\ A.lastMax > 0 /\ A.lastAvail = 0 /\ ~Has(mon.act, op.own),
+                  "C09", "send into a full mailbox completed at once instead of waiting")
            \* C06
            \cup B(op.kind = "kill" /\ ev.res # "ok", "C06", "kill() failed")
            \* C11
@@ -267,8 +273,8 @@ OnHEnter(mon, ev) ==
 OnHExit(mon, ev) ==
   LET a == ev.a  A == ActOf(mon, a)
       b0 == B(A.inHook # ev.hook, "C04", "hook exit without matching entry")
-      pan == IF ev.out = "panic" THEN ev.hook ELSE A.panicIn
-      crashed == mon.crashed \/ ev.out \in {"panic", "err"}
+      pan == IF ev.out \in {"panic", "slowpanic"} THEN ev.hook ELSE A.panicIn
+      crashed == mon.crashed \/ ev.out \in {"panic", "slowpanic", "err"}
   IN
   IF ev.hook = "start" THEN
        AddBad([UpdA(mon, a, [startOut |-> ev.out, inHook |-> "", panicIn |-> pan,
@@ -282,7 +288,7 @@ OnHExit(mon, ev) ==
                    THEN UpdM(mon, ev.m, [replied |-> TRUE, rv |-> ev.v, repNow |-> mon.now]) ELSE mon
            m2 == UpdA(m1, a, [inHook |-> "", panicIn |-> pan,
                               jl |-> IF ok THEN Append(A.jl, "h") ELSE A.jl,
-                              hdone |-> A.hdone + 1, slowDone |-> A.slowDone \/ ev.out = "slow",
+                              hdone |-> A.hdone + 1, slowDone |-> A.slowDone \/ ev.out \in {"slow", "slowpanic"},
                               tellPending |-> IF ok /\ isTell THEN ev.m ELSE 0])
        IN  AddBad([m2 EXCEPT !.crashed = crashed], b0)
   ELSE \* stop
